@@ -18,7 +18,7 @@ ARG_ERR = ('missing', 'unexpected keyword', 'positional-only', 'multiple values'
 def kinds_label(b):
     ks = set()
     for d in b.kinds.values():
-        ks.update(d.values())
+        ks.update(v for k, v in d.items() if k != '__po_order__')
     if 'po' in ks:
         return 'posonly-parameter'
     if 'kw' in ks:
@@ -42,7 +42,8 @@ def check_one(rec, seed, opts):
     allowed = rec['allowed']
     info = {'outcome': b.outcome, 'kinds': kinds_label(b), 'carriers': sorted(set(b.carriers.values()))}
     detail = {'rec': rec, 'seed': seed, 'opts': opts, 'hashseed': os.environ.get('PYTHONHASHSEED'),
-              'outcome': b.outcome, 'exc': repr(b.exc), 'kinds': b.kinds, 'carriers': b.carriers}
+              'outcome': b.outcome, 'exc': repr(b.exc), 'kinds': b.kinds, 'carriers': b.carriers,
+              'decoy': getattr(b, 'decoy', None), 'via_factory': getattr(b, 'via_factory', None)}
     if b.outcome == 'ok':
         if 'ok' not in allowed:
             why = 'conflict' if rec['conflict'] else ('malformed' if rec['bad']['k'] != 'none' else 'unresolved')
@@ -64,7 +65,15 @@ def check_one(rec, seed, opts):
             exp = expected_calls(rec, 'main', (1, 2, 3))
             expn = dict((k, set(n for n, src in v.items() if src[0] != 'default')) for k, v in exp.items())
             if expn != sw:
-                viol.append(('static-wiring-differs:%s' % kinds_label(b),
+                gap = False
+                for k_, names_ in expn.items():
+                    fidk_ = (k_[0] - 1) * 3 + k_[1] if k_[0] <= rec['n'] else (rec['EPF'] if k_[1] == 2 else rec['RNF'])
+                    order_ = b.kinds.get(fidk_, {}).get('__po_order__', [])
+                    missing_ = names_ - sw.get(k_, set())
+                    for nm_ in missing_:
+                        if nm_ in order_ and any(x not in names_ for x in order_[:order_.index(nm_)]):
+                            gap = True
+                viol.append(('static-wiring-differs:%s' % ('posonly-gap' if gap else kinds_label(b)),
                              'generated chain passes %r, spec says %r' % (sw, expn),
                              dict(detail, static=dict(('%d:%d' % k, sorted(v)) for k, v in sw.items()))))
     # accepted: run requests
@@ -99,7 +108,14 @@ def check_one(rec, seed, opts):
             if dup:
                 viol.append(('function-called-twice', 'a chain function ran twice in one request', d2))
             if expn != obsn:
-                viol.append(('passed-names-differ:%s' % kinds_label(b),
+                gap = False
+                for k_, names_ in expn.items():
+                    fidk_ = (k_[0] - 1) * 3 + k_[1] if k_[0] <= rec['n'] else (rec['EPF'] if k_[1] == 2 else rec['RNF'])
+                    order_ = b.kinds.get(fidk_, {}).get('__po_order__', [])
+                    for nm_ in set(names_) - set(obsn.get(k_, [])):
+                        if nm_ in order_ and any(x not in names_ for x in order_[:order_.index(nm_)]):
+                            gap = True
+                viol.append(('passed-names-differ:%s' % ('posonly-gap' if gap else kinds_label(b)),
                              'functions received names %r, spec says %r' % (obsn, expn),
                              dict(d2, expected=dict(('%d:%d' % k, v) for k, v in expn.items()))))
         else:
@@ -116,8 +132,12 @@ def check_one(rec, seed, opts):
                     nm, e, o = bad[0]
                     fidk = (k[0] - 1) * 3 + k[1] if k[0] <= rec['n'] else (rec['EPF'] if k[1] == 2 else rec['RNF'])
                     kind = b.kinds.get(fidk, {}).get(nm, 'pos')
+                    order = b.kinds.get(fidk, {}).get('__po_order__', [])
+                    if kind == 'po' and o and o[0] == 'default' and nm in order and \
+                            any(exp[k].get(x, [''])[0] == 'default' for x in order[:order.index(nm)]):
+                        kind = 'po-gap'
                     viol.append(('wrong-source:%s->%s:%s' % (e[0] if e else 'absent', o[0] if o else 'absent',
-                                                            {'kw': 'kwonly-parameter', 'po': 'posonly-parameter'}.get(kind, 'plain')),
+                                                            {'kw': 'kwonly-parameter', 'po': 'posonly-parameter', 'po-gap': 'posonly-gap'}.get(kind, 'plain')),
                                  'function %r parameter %r: expected source %r, observed %r' % (k, nm, e, o),
                                  dict(d2, expected=dict(('%d:%d' % kk, v) for kk, v in exp.items()))))
                     break
